@@ -53,3 +53,48 @@ def c09(tier):
 def c11(tier):
     return V.generic_pbt('C11', tier, n_quick=2500, n_thorough=60000, floor=100, assumptions=API_ASSUME +
                          ['name look-up is exact and case-sensitive (a padded query is a different name); expected results come from a list model built from the positional accessors'])
+
+FILE_ASSUME = ['files are little-endian, float format, header consistent with POINT/ANALOG parameters, POINT and ANALOG groups present',
+               'strings printable ASCII without NUL; equality modulo trailing spaces; group and parameter order is not compared (name-keyed)',
+               'the reference encoder/decoder pair is checked against itself on every case; a disagreement discards the case']
+
+@reg('C02')
+def c02(tier):
+    return V.generic_pbt('C02', tier, n_quick=4000, n_thorough=150000, floor=100, assumptions=FILE_ASSUME)
+
+@reg('C04')
+def c04(tier):
+    return V.generic_pbt('C04', tier, n_quick=3000, n_thorough=100000, floor=100, assumptions=FILE_ASSUME +
+                         ['3 generations (quick) / 4 (thorough); the three vendor files of the test suite are fixed seeds'])
+
+def c03_sweep_cases(tier):
+    """Enumerated sweep of the parameter-section length: a padding parameter of n ints (2n bytes) and a description of d chars
+    makes (length mod 512) take every residue 0..511 (n in 0..255, d in 0..1), for 1 (quick) or 3 (thorough) object shapes."""
+    import os
+    d = os.path.join(V.WORK, 'c03-sweep-%d' % os.getpid())
+    os.makedirs(d, exist_ok=True)
+    shapes = {
+        'frames': 'declp 1 0\ndeclp 2 0\ndecla 3 0\nprate 8\narate 1\nfbuild 0 0 11\nfsub 0 0 0\nfbuild 1 0 12\nfsub 1 0 0\n',
+        'noframes': 'declp 4 0\nparam 5 1 2 1 3 77 2 0\nlockg 5\n',
+        'loaded': 'flayout 512 3 1 1 0 0\nfshape 2 1 2 3 5 3 0 0 9\nfhdr 3 0 0 12345 2 5 0\nfids 4 1 7\nfgroup 9 1 130 1\nforder 3 1\nload\ndeclp 6 0\n',
+    }
+    use = ['frames', 'noframes', 'loaded'] if tier == 'thorough' else ['frames']
+    paths = []
+    for sh in use:
+        for n in range(256):
+            for dd in range(2):
+                p = os.path.join(d, '%s-%03d-%d.case' % (sh, n, dd))
+                with open(p, 'w') as f:
+                    f.write('property: C03\n' + shapes[sh] + 'padp %d %d\n' % (n, dd))
+                paths.append(p)
+    return d, paths
+
+@reg('C03')
+def c03(tier):
+    import shutil
+    d, paths = c03_sweep_cases(tier)
+    try:
+        return V.generic_pbt('C03', tier, n_quick=3000, n_thorough=60000, floor=500, assumptions=API_ASSUME + FILE_ASSUME[:2], extra_cases=paths,
+                             extra_cov={'residue_sweep': 'all 512 residues of (parameter-section length mod 512) enumerated x %d object shape(s)' % (3 if tier == 'thorough' else 1)})
+    finally:
+        shutil.rmtree(d, ignore_errors=True)
